@@ -35,6 +35,14 @@ func (L *Loaded) lookupNative(fn *ssa.Function, name, oname string) nativeFn {
 			return nf
 		}
 	}
+	if strings.HasPrefix(short, "init#") && fn.Pos().IsValid() {
+		file := fn.Prog.Fset.Position(fn.Pos()).Filename
+		for _, sfx := range skipInitInFiles {
+			if strings.HasSuffix(file, sfx) {
+				return noop
+			}
+		}
+	}
 	if nf, ok := natives[name]; ok {
 		return nf
 	}
@@ -73,9 +81,40 @@ var noInitPkgs = map[string]bool{
 	"runtime": true, "os": true, "syscall": true, "net": true, "reflect": true, "internal/poll": true,
 	"sync": true, "sync/atomic": true, "time": true, "testing": true, "internal/godebug": true,
 	"crypto/sha256": true, "internal/cpu": true, "errors": true, "internal/reflectlite": true, "fmt": true, "strconv": true, "internal/strconv": true, "unicode": true,
+	"google.golang.org/protobuf/internal/detrand": true,
 }
 
-func (L *Loaded) noInit(path string) bool { return noInitPkgs[path] }
+// explicit init() functions that are never executed: the default bootstrap
+// peer list (multiaddr parsing) and protobuf type registration.
+var skipInitInFiles = []string{"/dht_bootstrap.go", ".pb.go"}
+
+var stdInitAllow = map[string]bool{
+	"io": true, "context": true, "sort": true, "strings": true, "bytes": true, "bufio": true, "encoding/binary": true,
+	"encoding/hex": true, "encoding/base32": true, "encoding/base64": true, "math": true, "path": true, "container/list": true,
+	"slices": true, "maps": true, "iter": true, "unicode/utf8": true, "math/bits": true, "cmp": true, "io/fs": true,
+	"encoding/json": false, "container/heap": true, "math/big": false, "hash/fnv": true,
+}
+
+func isStdPkg(path string) bool {
+	first := path
+	if k := strings.IndexByte(path, '/'); k >= 0 {
+		first = path[:k]
+	}
+	return !strings.Contains(first, ".")
+}
+
+// noInit: standard-library package initialisers are skipped unless allow-listed
+// (most need reflection, the OS or the runtime); their package-level variables
+// keep zero values, and the functions that matter are modelled natively.
+func (L *Loaded) noInit(path string) bool {
+	if noInitPkgs[path] {
+		return true
+	}
+	if isStdPkg(path) {
+		return !stdInitAllow[path]
+	}
+	return false
+}
 
 func (fr *frame) symName(base string) string {
 	p := fr.i.p
@@ -731,6 +770,8 @@ func init() {
 		return fr.i.writeTo(fr, a[0].(iface), fr.i.sprint(fr, a[1].([]value), true))
 	}
 
+	natives["google.golang.org/protobuf/internal/detrand.Bool"] = func(fr *frame, a []value) value { return false }
+	natives["google.golang.org/protobuf/internal/detrand.Intn"] = func(fr *frame, a []value) value { return 0 }
 	// ---------------- uuid / rand ----------------
 	natives["github.com/google/uuid.New"] = func(fr *frame, a []value) value {
 		out := make(array, 16)
@@ -1540,4 +1581,82 @@ func canonObs(v value) string {
 		return canonObs([]value(v))
 	}
 	return toString(v)
+}
+
+// ---------------------------------------------------------------------
+// math/big.Int model: {neg bool; abs nat} where abs holds the magnitude as
+// big-endian *bytes* (values in this code base are unsigned, <= 32 bytes).
+
+func bigBytes(fr *frame, p value) []value {
+	ptr := fr.ptr(p)
+	st := (*ptr).(structure)
+	if neg, ok := st[0].(bool); !ok || neg {
+		unsupported("negative big.Int")
+	}
+	b, _ := st[1].([]value)
+	return b
+}
+
+func init() {
+	natives["math/big.NewInt"] = func(fr *frame, a []value) value {
+		x, ok := a[0].(int64)
+		if !ok || x < 0 {
+			unsupported("big.NewInt of a symbolic or negative value")
+		}
+		var b []value
+		for s := 56; s >= 0; s -= 8 {
+			b = append(b, uint8(x>>uint(s)))
+		}
+		var v value = structure{false, b}
+		return &v
+	}
+	natives["(*math/big.Int).SetBytes"] = func(fr *frame, a []value) value {
+		ptr := fr.ptr(a[0])
+		st := (*ptr).(structure)
+		st[0] = false
+		st[1] = append([]value{}, a[1].([]value)...)
+		return a[0]
+	}
+	natives["(*math/big.Int).Bytes"] = func(fr *frame, a []value) value {
+		b := bigBytes(fr, a[0])
+		k := 0
+		for k < len(b) {
+			if z, ok := b[k].(uint8); ok && z == 0 {
+				k++
+				continue
+			}
+			if isSym(b[k]) {
+				unsupported("big.Int.Bytes with a symbolic leading byte")
+			}
+			break
+		}
+		return append([]value{}, b[k:]...)
+	}
+	natives["(*math/big.Int).Cmp"] = func(fr *frame, a []value) value {
+		x, y := bigBytes(fr, a[0]), bigBytes(fr, a[1])
+		n := len(x)
+		if len(y) > n {
+			n = len(y)
+		}
+		pad := func(b []value) []value {
+			out := make([]value, 0, n)
+			for k := len(b); k < n; k++ {
+				out = append(out, uint8(0))
+			}
+			return append(out, b...)
+		}
+		return fr.i.bytesCompare(pad(x), pad(y))
+	}
+	natives["(*math/big.Int).Sign"] = func(fr *frame, a []value) value {
+		b := bigBytes(fr, a[0])
+		var nz value = false
+		for _, e := range b {
+			nz = fr.i.vOr(nz, fr.i.vNot(fr.i.eqv(types.Typ[types.Uint8], e, uint8(0))))
+		}
+		if fr.i.truth(nz) {
+			return 1
+		}
+		return 0
+	}
+	natives["(*math/big.Int).String"] = func(fr *frame, a []value) value { return "<big.Int>" }
 }
